@@ -31,6 +31,7 @@ def module():
         m.add_func('ii', 'i', (), local_get(0) + local_get(1) + atomic(0x00, 2, off), export='no%d' % off)
     m.add_func('ii', '', (), local_get(0) + local_get(1) + atomic(0x17, 2, 0), export='st32')
     m.add_func('ii', '', (), local_get(0) + local_get(1) + memop(0x36, 2, 0), export='init32')
+    m.add_func('iI', '', (), local_get(0) + local_get(1) + memop(0x37, 3, 0), export='init64')
     return m.encode()
 
 
@@ -58,9 +59,9 @@ E1_EXPECT = {  # per the threads proposal: the cell at addr+offset is compared; 
     'w64o0 expA': 2, 'w64o0 expB': 1, 'w64o16 expA': 1, 'w64o16 expB': 2, 'no0': 0, 'no16': 0}
 
 
-def run_e1(chk, d):
-    exe = os.path.join(d, 'e1')
-    cmd = ['gcc', '-O1', '-g', '-w', '-DWASM_THREADS_PTHREADS', '-I', d, '-I', os.path.join(REPO, 'w2c2'), os.path.join(d, 'm.c'),
+def run_e1(chk, d, be=False):
+    exe = os.path.join(d, 'e1be' if be else 'e1')
+    cmd = ['gcc', '-O1', '-g', '-w', '-DWASM_THREADS_PTHREADS'] + (['-DWASM_ENDIAN=WASM_BIG_ENDIAN'] if be else []) + ['-I', d, '-I', os.path.join(REPO, 'w2c2'), os.path.join(d, 'm.c'),
            os.path.join(mclib.MC, 'h_futex_e1.c')] + futex_srcs() + ['-o', exe, '-lpthread']
     r = run(cmd)
     if r.returncode != 0:
